@@ -33,6 +33,18 @@ Proof.
 Qed.
 Print Assumptions C09_count_mode.
 
+(* entries that cannot be opened at all (a link whose target is gone, a file purged after the listing: F14) are skipped the
+   same way, alone or mixed with files the decoders reject *)
+Theorem C09_unreadable : forall d oc c names good junk,
+  Permutation names (good ++ junk) ->
+  (forall j, In j junk -> oc j = None \/
+     (is_got (d_count d (content_of oc j)) = false /\ is_got (d_summary d (content_of oc j)) = false /\ is_got (d_full d (content_of oc j)) = false)) ->
+  mode_count_o d c oc names = mode_count_o d c oc good /\
+  mode_list_o d c oc names = mode_list_o d c oc good /\
+  mode_all_o d c oc names = mode_all_o d c oc good.
+Proof. exact unreadable_invisible_modes. Qed.
+Print Assumptions C09_unreadable.
+
 (* the --all-pels output is one JSON array whatever the documents are (C06) *)
 Theorem C09_all_is_one_array : forall docs tds, Forall2 complete docs tds ->
   tokens (all_output docs) = Some ([TP 91] ++ sep_tokens tds ++ [TP 93]).
